@@ -114,6 +114,7 @@ def run_edit(vec, rate, width, eid, workdir, wav=None):
     st, pe, ret = "ok", False, []
     aligned = True
     sameparams = True
+    subalias = False
     try:
         if op in ("getSamples", "getFrames", "getSubwav"):
             if op == "getSamples":
@@ -124,6 +125,10 @@ def run_edit(vec, rate, width, eid, workdir, wav=None):
             else:
                 sub = wav.getSubwav(secs(a["t0"], rate), secs(a["t1"], rate))
                 ret, aligned = codec.from_bytes(sub.frames)
+                # the excerpt is a recording of its own: editing it must not show in the recording it was cut from
+                before = bytes(wav.frames)
+                sub.concatenate(codec.to_bytes([103]))
+                subalias = sub is wav or bytes(wav.frames) != before
         elif op == "deleteSegment":
             wav.deleteSegment(secs(a["t0"], rate), secs(a["t1"], rate))
         elif op == "insert":
@@ -140,7 +145,8 @@ def run_edit(vec, rate, width, eid, workdir, wav=None):
             vals = audio.convertFromBytes(audio.convertToBytes(tuple(codec.v[i] for i in vec["pre"]), width), width)
             ret = [codec.inv.get(v, -1) for v in vals]
         elif op in ("saveOpen", "saveQuery", "queryGetSamples"):
-            fn = os.path.join(workdir, "w-%d-%d.wav" % (os.getpid(), eid))
+            # one path per worker, rewritten for every call: what a path held earlier must not matter
+            fn = os.path.join(workdir, "w-%d.wav" % os.getpid())
             wav.save(fn)
             try:
                 if op == "saveOpen":
@@ -171,7 +177,7 @@ def run_edit(vec, rate, width, eid, workdir, wav=None):
     dur = int(round(d)) if abs(d - round(d)) < 1e-6 else -1
     return {"id": eid, "fam": "audio", "op": op, "args": a, "pre": vec["pre"], "st": st, "pe": pe, "ret": ret, "post": post,
             "aligned": bool(aligned and al2), "dur": dur, "M": M, "sameparams": bool(sameparams), "n": len(ret),
-            "rate": rate, "width": width}
+            "rate": rate, "width": width, "alias": bool(subalias)}
 
 
 def write_wav(fn, ids, rate, codec):
@@ -477,7 +483,11 @@ def run_tgzc(vec, rate, width, eid):
     st, ret = "ok", []
     try:
         with contextlib.redirect_stdout(io.StringIO()):
-            r = scripts.tgBoundariesToZeroCrossings(tg, wav)
+            fl = vec.get("flags") or {"adjP": True, "adjI": True}
+            if fl["adjP"] and fl["adjI"]:
+                r = scripts.tgBoundariesToZeroCrossings(tg, wav)                      # the defaults
+            else:
+                r = scripts.tgBoundariesToZeroCrossings(tg, wav, adjustPointTiers=fl["adjP"], adjustIntervalTiers=fl["adjI"])
         ret = proj(r)
     except Exception as ex:  # noqa
         st = type(ex).__name__
@@ -493,7 +503,8 @@ def run_tgzc(vec, rate, width, eid):
         except Exception:  # noqa
             pass
     return {"id": eid, "fam": "zc", "op": "tgZc", "samples": vec["samples"], "pre": pre, "ret": ret, "st": st, "M": M,
-            "rate": rate, "width": width, "args": {"k": 0}, "collapse": bool(collapse)}
+            "rate": rate, "width": width, "args": dict({"k": 0}, **(vec.get("flags") or {"adjP": True, "adjI": True})),
+            "collapse": bool(collapse)}
 
 
 def run_splice(vec, rate, width, eid):
